@@ -114,7 +114,7 @@ func structField(n *types.Named, names ...string) *types.Var {
 		}
 		fv = nil
 		for i := 0; i < st.NumFields(); i++ {
-			if st.Field(i).Name() == name {
+			if core.FieldVarName(st.Field(i)) == name {
 				fv = st.Field(i)
 			}
 		}
@@ -604,12 +604,28 @@ func checkRegistrationOrder(c *Ctx, rule string) {
 			seen[o] = true
 			ok := false
 			var regPos []string
+			// some registration can run before this write, and none can run after it (the registration may sit under
+			// "if this packet is a request": it need not dominate the write, it must never follow it)
+			after := false
 			for _, r := range reg {
 				regPos = append(regPos, P.InstrPos(r))
-				if r != o && core.Precedes(r, o) {
-					ok = true
+				if r != o && reaches(r, o) {
+					// the decision to register - the nearest block above the registration that dominates the write -
+					// precedes the write on every path; a write that bypasses it altogether is only dominated by
+					// the function entry
+					b := r.Block()
+					for b != nil && !(b == o.Block() && core.Precedes(r, o)) && !(b != o.Block() && b.Dominates(o.Block())) {
+						b = b.Idom()
+					}
+					if b != nil && (b != wp.Blocks[0] || r.Block() == wp.Blocks[0]) {
+						ok = true
+					}
+				}
+				if r != o && reaches(o, r) {
+					after = true
 				}
 			}
+			ok = ok && !after
 			key := ordKey(counts, "rtmp|(*Protocol).WritePacket|transport-write")
 			R.Check(ok, rule, key, P.InstrPos(o),
 				"request registered before this transport write on every path",
@@ -622,7 +638,7 @@ func checkRegistrationOrder(c *Ctx, rule string) {
 		for _, r := range reg {
 			late := ""
 			for _, o := range outs {
-				if o != r && core.Precedes(o, r) {
+				if o != r && reaches(o, r) {
 					late = P.InstrPos(o)
 				}
 			}
